@@ -154,7 +154,12 @@ eval(struct expr *expr)
 		l = eval(expr->base);
 		if (l->kind == EXPRCONST) {
 			expr->kind = EXPRCONST;
-			if (l->type->prop & PROPINT && t->prop & PROPFLOAT) {
+			if (t->kind == TYPEBOOL) {
+				if (l->type->prop & PROPFLOAT)
+					expr->u.constant.u = l->u.constant.f != 0;
+				else
+					expr->u.constant.u = l->u.constant.u != 0;
+			} else if (l->type->prop & PROPINT && t->prop & PROPFLOAT) {
 				if (l->type->u.basic.issigned)
 					expr->u.constant.f = l->u.constant.i;
 				else
